@@ -181,11 +181,14 @@ Theorem c11_resend_is_replay :
 Proof. exact history_resend. Qed.
 
 (** ---- 5. refutations: one witness per open class ---- *)
-(** an expired key removed by a read: every command is in the domain, only [live_fresh]
-    fails - the hypothesis of c11_replay is necessary *)
+(** expiry is not logged, TTLs are relative: SET k v PX 300 at time 0, GET k at time 600 (k is
+    gone), redo at time 600 (k is back for 300 ms).  Every command is in the domain and the redo is
+    fresh; only [live_fresh] fails - the hypothesis of the replay theorems is necessary *)
 Theorem c11_expired_unlogged_refuted :
-  diverges 0 expired_history /\ forallb (fun te => ev_ok (snd te)) expired_history = true /\
-  live_fresh (trace_of expired_history) dbs0 = false.
+  map dataset (s_dbs (replay 600 (aof_log (run_tevs expired_history)))) <> map dataset (s_dbs (run_tevs expired_history)) /\
+  forallb (fun te => ev_ok (snd te)) expired_history = true /\
+  live_fresh (trace_of expired_history) dbs0 = false /\
+  redo_fresh 600 (aof_log (run_tevs expired_history)) (0, dbs0) = true.
 Proof. exact expired_diverges. Qed.
 (** random outcomes logged verbatim: two admissible outcomes, one file, two datasets *)
 Theorem c11_random_spop_refuted :
